@@ -6,6 +6,7 @@ import os
 import re
 
 import vlib
+import runner
 from mtcheck import MTCheck
 
 HARNESS_SRCS = ["ivmt.c", "ivmt_sig.c", "vk.c", "mt.c"]
@@ -145,7 +146,7 @@ class C10(SigBase):
     rule = ("scenarios = 1-3 loop threads (+ optional plain raiser thread), 1-5 interests per thread over 1-2 signals with all four flag "
             "combinations, deliveries directed at every thread / process-directed / to a forked child, raised from tasks, timers, signal "
             "handlers (delivery during the handler) and other threads, register/unregister from tasks, timers and handlers, random baton "
-            "schedules; plus the D5 witness family.  non-trivial = the log has a delivery that posts (Fw between Sd and Sx) and one of: "
+            "schedules; plus the cross-scope hand-off family (the scenarios that exposed D5, fixed).  non-trivial = the log has a delivery that posts (Fw between Sd and Sx) and one of: "
             "deliveries in >= 2 threads, a delivery during a user handler (Sd between Cg and the thread's next wait), a hand-off post "
             "inside an unregister, a process-set fallback (L s inside Sd..Sx), a delivery in a forked child; distinct = distinct case text")
 
@@ -211,8 +212,8 @@ class C10(SigBase):
         return ";".join(secs)
 
     def d5_family(self, rng):
-        """an exclusive this-thread interest is unregistered while a delivery is noted for it and only process-wide interests
-        remain for the signal (in this or another thread)"""
+        """cross-scope hand-off (defect D5, fixed): an exclusive this-thread interest is unregistered while a delivery is noted
+        for it and only process-wide interests remain for the signal (in this or another thread): they must get it"""
         out = []
         for via in ("task", "timer", "handler"):
             for other_thr in (False, True):
@@ -301,13 +302,11 @@ class C10(SigBase):
         return posted and (feature or len(thr_sd) >= 2)
 
     def signature(self, case, why):
-        if "D5 cross-scope hand-off" in why:
-            return "c10:D5-cross-scope-handoff"
         return "c10:" + ("crash" if "CRASH" in why or "sanitizer" in why or "crashed" in why else "monitor")
 
     def distribution(self, cases):
         toks = [t for c in cases for s in c.split(";") if ":" in s for t in s.split(":", 1)[1].replace("/", " ").split()]
-        return {"fixed": self.n_fixed, "d5_family": len(self.d5_cases), "generated": self.n_gen,
+        return {"fixed": self.n_fixed, "cross_scope_handoff_family": len(self.d5_cases), "generated": self.n_gen,
                 "threads": {str(k): sum(1 for c in cases if len(re.findall(r"(?:^|;)[LP]\d:", c)) == k) for k in (1, 2, 3, 4)},
                 "registrations": sum(1 for t in toks if t.startswith("gr")),
                 "by_flags": {f or "shared": sum(1 for t in toks if re.fullmatch(r"gr\d=\d+%s" % f, t)) for f in self.FLAGS},
@@ -642,3 +641,36 @@ class C19(SigBase):
                 "spontaneous_changes": sum(1 for t in toks if t.startswith("cs")),
                 "clock_disturbed_cases": sum(1 for c in cases if re.search(r"[: ]ca\d", c)),
                 "with_foreign_reaper_thread": sum(1 for c in cases if "cn9" in c)}
+
+
+# ---- real fork/exec smoke run for C19 (the only place where the child side of iv_popen executes) ----
+def _c19_smoke(self, ctx):
+    import subprocess
+    d = os.path.join(ctx.work, "smoke")
+    ok, out = vlib.cc_build(d, "popen_smoke", ["popen_smoke.c"], vlib.LIB_SRCS)
+    if not ok:
+        return "popen_smoke does not build: " + out[-400:]
+    try:
+        p = subprocess.run([os.path.join(d, "popen_smoke")], stdout=subprocess.PIPE, stderr=subprocess.PIPE, text=True,
+                           errors="replace", timeout=120, env=dict(os.environ, **runner.ASAN_ENV))
+    except subprocess.TimeoutExpired:
+        return "popen_smoke: timeout"
+    if p.returncode != 0 or not p.stdout.startswith("OK"):
+        return "popen_smoke (real fork/exec, real kernel): %s %s" % (p.stdout.strip(), p.stderr[-600:])
+    return None
+
+
+_c19_correspond = C19.correspond
+
+
+def _c19_correspond_with_smoke(self, ctx, cases):
+    st = _c19_correspond(self, ctx, cases)
+    if len(cases) > 10:
+        why = _c19_smoke(self, ctx)
+        self.smoke_ok = why is None
+        if why:
+            st["crashes"].append((0, why))
+    return st
+
+
+C19.correspond = _c19_correspond_with_smoke
